@@ -206,6 +206,14 @@ def app_goldens(rng):
     out.append(("rtp_plain", "RTP", rtp(0x80, 0x61, pay(12))))
     out.append(("rtp_csrc_ext_padding", "RTP", struct.pack("!BBHII", 0xb2, 0x62, 7, 8, 9) + struct.pack("!II", 0x11, 0x22) + struct.pack("!HHI", 0xbede, 1, 0x01020304) + pay(8) + bytes([0, 2])))
     out.append(("rtp_padding_one", "RTP", rtp(0xa0, 0x60, bytes([1]))))
+    # RadioTap captures: FLAGS with the FCS-at-end bit and nothing but the 4 FCS octets behind the header; the same with an ACK frame
+    # in between; without the flag
+    rt = lambda flags: struct.pack("<BBHI", 0, 0, 9, 2) + bytes([flags])
+    ack = bytes([0xd4, 0, 0, 0, 0, 0x11, 0x22, 0x33, 0x44, 0x55])
+    out.append(("radiotap_fcs_only", "RadioTap", rt(0x10) + bytes([0xde, 0xad, 0xbe, 0xef])))
+    out.append(("radiotap_fcs_ack", "RadioTap", rt(0x10) + ack + bytes([0xde, 0xad, 0xbe, 0xef])))
+    out.append(("radiotap_fcs_other_flags_ack", "RadioTap", rt(0x12) + ack + bytes([1, 2, 3, 4])))
+    out.append(("radiotap_nofcs_ack", "RadioTap", rt(0x00) + ack))
     # BOOTP / DHCP: fixed part + cookie + options, END, PAD octets behind it
     bootp = struct.pack("!BBBBIHH", 1, 1, 6, 0, 0x3903f326, 0, 0x8000) + bytes(16) + bytes([0, 0x11, 0x22, 0x33, 0x44, 0x55]) + bytes(10) + bytes(64) + bytes(128)
     opts = bytes([53, 1, 1, 50, 4, 192, 0, 2, 50, 12, 4, 104, 111, 115, 116])
